@@ -292,6 +292,7 @@ func C19(tier string) int {
 	}
 	close(jobs)
 	wg.Wait()
+	boundaryPass(rep, "C19", true, true, true)
 	rep.Set("evaluations", rep.Get("evaluations"))
 	rep.Set("distinct_nontrivial", int(rep.Get("compared_pairs")))
 	return rep.Finish()
